@@ -13,7 +13,16 @@ prefix = json.loads(sys.argv[3]) if len(sys.argv) > 3 else []
 drv = getattr(importlib.import_module("verifkit.mirsym.drivers." + mod), fn)
 ctx = PathCtx(prefix)
 it = Interp(prog, ctx, Models())
-h = Harness(it); h.params = {}
+h = Harness(it); h.params = json.loads(__import__("os").environ.get("RUN1_PARAMS", "{}"))
+_force = json.loads(__import__("os").environ.get("FORCE_CHOICES", "{}"))       # {"label": value}: named driver choices taken without consuming the prefix
+if _force:
+    _orig_choose = h.choose
+    def _choose(n, label=""):
+        if label in _force:
+            h.choices = getattr(h, "choices", []) + [(label, _force[label])]
+            return _force[label]
+        return _orig_choose(n, label)
+    h.choose = _choose
 try:
     drv(h)
     print("OK failures=", h.failures, "covers=", list(h.covers), "pending=", ctx.pending, "steps", it.steps)
